@@ -428,7 +428,9 @@ _c("C10",
    "create_serializer calls with any flags, instantiations / from_trusted_data and serializations; late binding of class "
    "references by the class of the VALUE, the compact wrapper). Trusted side: on the flat fragment "
    "(primitive fields, document in vset normal form under the fields' own names) the trusted path returns exactly the regular "
-   "path's instance (C10_trusted_partial, induction over the field list); for an ineligible class the flag changes nothing "
+   "path's instance (C10_trusted_partial, induction over the field list), and so it does on the enum fragment (primitive "
+   "fields and Enum fields over an enum class, by name or by value, plain / AnyOf[T, None] / AnyOf[None, T]: "
+   "C10_trusted_enums, through the enum mapping and _remap_input); for an ineligible class the flag changes nothing "
    "(C10_ineligible); from_trusted_data equals construct when every value is a fixpoint of its vset chain (C10_from_trusted). "
    "Fast side: per field, fast = regular on every declaration built from leaves, Array and Set (C10_fast_value_partial); per "
    "class, for every safe class environment (nested classes, Array/Set/Optional of leaves and of classes, simple mappers, no "
